@@ -202,8 +202,15 @@ func (c13) Run(c *mon.Ctx, i int) {
 		dict1 = nil
 	}
 	next := nextDeflate
+	twoMembers := kind == "gzip" && valid && r.Chance(1, 3)
 	if kind != "flate" {
 		next = c13Wrap(kind, nextDeflate, nextPlain, dict1, r)
+		if twoMembers {
+			// Reset must also restore the default multistream mode
+			extra := gen.Make(r, "text", r.Range(1, 3000)).B
+			next = append(next, encodeStdGzip(extra, 6)...)
+			nextPlain = append(append([]byte(nil), nextPlain...), extra...)
+		}
 		if nextKind == "truncated" && len(next) > 4 {
 			next = next[:len(next)-r.Range(1, 4)]
 		}
@@ -262,6 +269,9 @@ func (c13) Run(c *mon.Ctx, i int) {
 			// histories for gzip/zlib): there is no Reader to reuse
 			reused = outcome{ctor: "skip"}
 			return
+		}
+		if rd.gz != nil && r.Bool() {
+			rd.gz.Multistream(false)
 		}
 		switch history {
 		case "complete", "at-eof", "corrupt", "source-error", "inside-header":
